@@ -1,6 +1,7 @@
 package main
 
 import (
+	"go/printer"
 	"fmt"
 	"go/ast"
 	"go/token"
@@ -47,6 +48,7 @@ type Exec struct {
 	assignsSeen       map[ast.Node]bool
 	closesChans       []Term // channels the goroutine under proof may close without owning them (closes=)
 	inputChans        []Term // the channels declared as inputs of the goroutine under proof
+	extraInv          map[ast.Node][]Clause // engine-derived invariants of counting loops
 	selectRecv        bool   // the next chanRecv is an arm of a select (not a blocking receive)
 	scratch           string // directory for synchronous solver queries (invariant inference)
 	inferQueries      int
@@ -785,6 +787,23 @@ func (x *Exec) genericLoop(st *State, fr *Frame, node ast.Node, body []ast.Stmt,
 		}
 	}
 
+	// facts the engine derives itself for a plain counting loop (for i := A; i <= B; i++):
+	// i == A + iter and the bound that follows from the guard; they are checked like written
+	// invariants and let a contract speak about iter instead of a counter convention
+	if ex := x.extraInv[node]; len(ex) > 0 && x.dry == 0 {
+		merged := &LoopContract{}
+		if lc != nil {
+			merged.Inv = append(merged.Inv, lc.Inv...)
+			merged.Decr = lc.Decr
+		}
+		for _, c := range ex {
+			if _, err := x.cevalSafe(lenv(st), c, "Bool"); err == nil {
+				merged.Inv = append(merged.Inv, c)
+			}
+		}
+		lc = merged
+	}
+
 	// 2. invariant holds on entry
 	checkInv(st, "inv-init")
 
@@ -874,14 +893,26 @@ func (x *Exec) forStmt(st *State, fr *Frame, s *ast.ForStmt, k func(*State)) {
 				exit(f)
 			})
 		}
+		// hidden variable iter: the number of completed iterations
+		ord := x.loopOrd[s]
+		iterO := types.NewVar(s.Pos(), x.pkg.Types, fmt.Sprintf("iter#%d", ord), types.Typ[types.Int])
+		st.vars[iterO] = tInt(0)
+		hidden := func(s0 *State) map[string]Term { return map[string]Term{"iter": s0.vars[iterO]} }
 		post := func(e *State, k2 func(*State)) {
+			e.vars[iterO] = tApp("Int", "+", e.vars[iterO], tInt(1))
 			if s.Post != nil {
 				x.stmt(e, fr, s.Post, k2)
 			} else {
 				k2(e)
 			}
 		}
-		x.genericLoop(st, fr, s, s.Body.List, nil, head, post, k)
+		if x.dry == 0 {
+			if x.extraInv == nil {
+				x.extraInv = map[ast.Node][]Clause{}
+			}
+			x.extraInv[s] = x.countingLoopFacts(s)
+		}
+		x.genericLoop(st, fr, s, s.Body.List, hidden, head, post, k)
 	}
 	if s.Init != nil {
 		x.stmt(st, fr, s.Init, start)
@@ -1085,4 +1116,79 @@ func (x *Exec) topFrame(fr *Frame) *Frame {
 		fr = fr.parent
 	}
 	return fr
+}
+
+// countingLoopFacts: for `for i := A; i <= B; i++` (or `<`), with i not assigned in the body and
+// A, B expressions the contract language can read, the clauses i == A + iter and the upper
+// bound implied by the guard.
+func (x *Exec) countingLoopFacts(s *ast.ForStmt) []Clause {
+	as, ok := s.Init.(*ast.AssignStmt)
+	if !ok || len(as.Lhs) != 1 || len(as.Rhs) != 1 {
+		return nil
+	}
+	id, ok := as.Lhs[0].(*ast.Ident)
+	if !ok {
+		return nil
+	}
+	inc, ok := s.Post.(*ast.IncDecStmt)
+	if !ok || inc.Tok != token.INC {
+		return nil
+	}
+	if pid, ok := inc.X.(*ast.Ident); !ok || pid.Name != id.Name {
+		return nil
+	}
+	be, ok := s.Cond.(*ast.BinaryExpr)
+	if !ok || (be.Op != token.LEQ && be.Op != token.LSS) {
+		return nil
+	}
+	if l, ok := be.X.(*ast.Ident); !ok || l.Name != id.Name {
+		return nil
+	}
+	// the counter is not assigned (or address-taken) in the body; A and B do not mention it
+	bad := false
+	obj := x.info.ObjectOf(id)
+	ast.Inspect(s.Body, func(n ast.Node) bool {
+		switch n := n.(type) {
+		case *ast.AssignStmt:
+			for _, l := range n.Lhs {
+				if li, ok := l.(*ast.Ident); ok && x.info.ObjectOf(li) == obj {
+					bad = true
+				}
+			}
+		case *ast.IncDecStmt:
+			if li, ok := n.X.(*ast.Ident); ok && x.info.ObjectOf(li) == obj {
+				bad = true
+			}
+		case *ast.UnaryExpr:
+			if li, ok := n.X.(*ast.Ident); ok && n.Op == token.AND && x.info.ObjectOf(li) == obj {
+				bad = true
+			}
+		}
+		return true
+	})
+	if bad {
+		return nil
+	}
+	src := func(e ast.Expr) string {
+		var b strings.Builder
+		printer.Fprint(&b, x.ld.Fset, e)
+		return b.String()
+	}
+	a, bnd := src(as.Rhs[0]), src(be.Y)
+	var texts []string
+	texts = append(texts, fmt.Sprintf("%s == (%s) + iter && iter >= 0", id.Name, a))
+	if be.Op == token.LEQ {
+		texts = append(texts, fmt.Sprintf("(%s) <= (%s) + 1 ==> %s <= (%s) + 1", a, bnd, id.Name, bnd))
+	} else {
+		texts = append(texts, fmt.Sprintf("(%s) <= (%s) ==> %s <= (%s)", a, bnd, id.Name, bnd))
+	}
+	var out []Clause
+	for _, t := range texts {
+		e, err := ParseCExpr(t)
+		if err != nil {
+			return nil
+		}
+		out = append(out, Clause{Src: "derived for the counting loop: " + t, Expr: e, Label: "counting"})
+	}
+	return out
 }
